@@ -533,6 +533,49 @@ theorem two_names_round_trip (ls1 ls2 : List Bytes) (hwf1 : WfLabels ls1) (hwf2 
     decodeName M off2 = .ok (joinDots ls2, off2 + B2.length) ∧ DictOK M (off2 + B2.length) d2 :=
   later_use_round_trip ls1 ls2 hwf1 hwf2 off1 off2 c1 c2 d d1 d2 B1 B2 M h1 h2 hlater hp1 hp2 hd
 
+/-! ### a decoded message is encoded again (the forwarder's / the cache's path)
+
+The model's messages are values: `encodeMsg` cannot depend on where a record came from.  What remains to be said is
+that the value `Message.fromStr` hands back, given its size limit again, is encoded to the very same bytes - so a
+message may go through any number of decode / encode rounds (`C32 rt2` in the driver is one such round; the tie runs
+it on the real code, where a decoded `RRHeader` carries an `rdlength` and a decoded payload its own attributes). -/
+
+theorem restore_maxSize (m : Msg) : { ({ m with maxSize := 0 } : Msg) with maxSize := m.maxSize } = m := by
+  cases m; rfl
+
+/-- A well-formed message within its size limit: the decoded message, with the size limit put back, is encoded to
+    the same bytes, which decode to the same message. -/
+theorem reencode_decoded_message (m : Msg) (hwf : wfMsg m = true) (body bs : Bytes)
+    (hbody : encodeBody m = .ok body) (hfit : m.maxSize = 0 ∨ body.length + headerSize ≤ m.maxSize)
+    (henc : encodeMsg m = .ok bs) :
+    ∃ d, decodeMsg bs = .ok d ∧ encodeMsg { d with maxSize := m.maxSize } = .ok bs ∧
+      { d with maxSize := m.maxSize } = m := by
+  refine ⟨{ m with maxSize := 0 }, decode_encode_message m hwf body bs hbody hfit henc, ?_, restore_maxSize m⟩
+  rw [restore_maxSize m]; exact henc
+
+/-- The same with no hypothesis on the encoder's result, for any number `n` of decode / encode rounds: every round
+    produces the first round's bytes. -/
+def reencode (maxSize : Nat) : Nat → Bytes → Except Err Bytes
+  | 0, bs => .ok bs
+  | n + 1, bs =>
+    match decodeMsg bs with
+    | .error e => .error e
+    | .ok d =>
+      match encodeMsg { d with maxSize := maxSize } with
+      | .error e => .error e
+      | .ok bs' => reencode maxSize n bs'
+
+theorem reencode_any_number_of_times (m : Msg) (hwf : wfMsg m = true)
+    (hsz : ∀ r ∈ m.answers ++ m.authority ++ m.additional, rdataMax r < 65536) :
+    ∃ body bs, encodeBody m = .ok body ∧ encodeMsg m = .ok bs ∧
+      ((m.maxSize = 0 ∨ body.length + headerSize ≤ m.maxSize) → ∀ n, reencode m.maxSize n bs = .ok bs) := by
+  obtain ⟨body, bs, hb, he⟩ := encode_succeeds m hwf hsz
+  refine ⟨body, bs, hb, he, fun hfit n => ?_⟩
+  obtain ⟨d, hd, hre, _⟩ := reencode_decoded_message m hwf body bs hb hfit he
+  induction n with
+  | zero => rfl
+  | succ n ih => simp only [reencode, hd, hre]; exact ih
+
 /-! ### non-vacuity: a concrete message with shared suffixes, a case variant and five record types -/
 
 /-- ASCII text as bytes -/
@@ -608,6 +651,13 @@ example : encodeMsg exBad = .error .value :=
 example : ∃ out, encodeMsg exMsg = .ok out ∧ decodeMsg out = .ok { exMsg with maxSize := 0 } := by
   obtain ⟨body, out, _, he, hrt, _⟩ := message_round_trip exMsg (by decide) (by decide)
   exact ⟨out, he, hrt (Or.inl rfl)⟩
+
+/-- `reencode_any_number_of_times` on the concrete message: three decode / encode rounds give the first bytes -/
+example : ∃ out, encodeMsg exMsg = .ok out ∧ reencode exMsg.maxSize 3 out = .ok out := by
+  have hw : wfMsg exMsg = true := by decide
+  have hs : ∀ r ∈ exMsg.answers ++ exMsg.authority ++ exMsg.additional, rdataMax r < 65536 := by decide
+  obtain ⟨body, out, _, he, h⟩ := reencode_any_number_of_times exMsg hw hs
+  exact ⟨out, he, h (Or.inl rfl) 3⟩
 
 example : encodeRR ⟨[], 10, 1, 0, some ⟨false, [.bytes (List.replicate 65536 0)]⟩⟩ 12 [] = .error .struct :=
   oversize_rdata_struct_error _ (Nat.le_of_eq List.length_replicate.symm) 12 []
